@@ -259,13 +259,32 @@ def fn_sx(f):
 
 # a class: dict(name, base, fields=[(static, final, ty, name, init)], ctors=[(params, super_args|None, body, default)],
 #               meths=[(name, params, ret, body, static, kind)], dtor=body|None)   kind: "" | "virtual" | "override"
+VIS = {"pub": "public", "prot": "protected", "priv": "private"}
+
+
+def _f(fd):
+    return tuple(fd) + ("pub",) * (6 - len(fd))
+
+
+def _c(ct):
+    return tuple(ct) + ("pub",) * (5 - len(ct))
+
+
+def _m(md):
+    return tuple(md) + ("pub",) * (7 - len(md))
+
+
 def class_src(c):
-    out = "class %s%s {\n" % (c["name"], " extends " + c["base"] if c.get("base") else "")
-    for (st, fin, t, n, init) in c["fields"]:
-        out += "  public %s%s%s %s%s;\n" % ("static " if st else "", "final " if fin else "", ty_src(t), n,
-                                            " = " + e_src(init) if init is not None else "")
-    for (ps, sup, body, dflt) in c["ctors"]:
-        hdr = "  public constructor(%s) -> %s" % (", ".join("%s %s" % (ty_src(t), n) for t, n in ps), c["name"])
+    kind = c.get("kind", "normal")
+    out = "%sclass %s%s {\n" % ({"normal": "", "abstract": "abstract ", "static": "static "}[kind], c["name"],
+                                " extends " + c["base"] if c.get("base") else "")
+    for fd in c["fields"]:
+        (st, fin, t, n, init, vis) = _f(fd)
+        out += "  %s %s%s%s %s%s;\n" % (VIS[vis], "static " if st else "", "final " if fin else "", ty_src(t), n,
+                                        " = " + e_src(init) if init is not None else "")
+    for ct in c["ctors"]:
+        (ps, sup, body, dflt, vis) = _c(ct)
+        hdr = "  %s constructor(%s) -> %s" % (VIS[vis], ", ".join("%s %s" % (ty_src(t), n) for t, n in ps), c["name"])
         if dflt:
             out += hdr + " = default;\n"
             continue
@@ -273,9 +292,10 @@ def class_src(c):
         if sup is not None:
             out += "    super(%s);\n" % ", ".join(e_src(a) for a in sup)
         out += "".join(s_src(x, 2) for x in body) + "  }\n"
-    for (n, ps, ret, body, st, kind) in c["meths"]:
-        out += "  public %s%sfunction %s(%s) -> %s {\n%s  }\n" % (
-            "static " if st else "", kind + " " if kind else "", n,
+    for md in c["meths"]:
+        (n, ps, ret, body, st, kind_, vis) = _m(md)
+        out += "  %s %s%sfunction %s(%s) -> %s {\n%s  }\n" % (
+            VIS[vis], "static " if st else "", kind_ + " " if kind_ else "", n,
             ", ".join("%s %s" % (ty_src(t), pn) for t, pn in ps), ty_src(ret), "".join(s_src(x, 2) for x in body))
     if c.get("dtor") is not None:
         out += "  public destructor() -> void {\n%s  }\n" % "".join(s_src(x, 2) for x in c["dtor"])
@@ -283,17 +303,17 @@ def class_src(c):
 
 
 def class_sx(c):
-    fs = "".join(" (field %d %d %s %s %s)" % (1 if st else 0, 1 if fin else 0, ty_sx(t), n, opt_sx(e_sx, init))
-                 for (st, fin, t, n, init) in c["fields"])
-    cts = "".join(" (ctor (%s) %s (%s) %d)" % (" ".join("(%s %s)" % (ty_sx(t), n) for t, n in ps),
-                                              "-" if sup is None else "(sup%s)" % "".join(" " + e_sx(a) for a in sup),
-                                              " ".join(s_sx(x) for x in body), 1 if dflt else 0)
-                  for (ps, sup, body, dflt) in c["ctors"])
-    ms = "".join(" (meth %s (%s) %s (%s) %d %d)" % (n, " ".join("(%s %s)" % (ty_sx(t), pn) for t, pn in ps), ty_sx(ret),
-                                                   " ".join(s_sx(x) for x in body), 1 if st else 0, 1 if kind else 0)
-                 for (n, ps, ret, body, st, kind) in c["meths"])
+    fs = "".join(" (field %d %d %s %s %s %s)" % (1 if st else 0, 1 if fin else 0, ty_sx(t), n, opt_sx(e_sx, init), vis)
+                 for (st, fin, t, n, init, vis) in map(_f, c["fields"]))
+    cts = "".join(" (ctor (%s) %s (%s) %d %s)" % (" ".join("(%s %s)" % (ty_sx(t), n) for t, n in ps),
+                                                 "-" if sup is None else "(sup%s)" % "".join(" " + e_sx(a) for a in sup),
+                                                 " ".join(s_sx(x) for x in body), 1 if dflt else 0, vis)
+                  for (ps, sup, body, dflt, vis) in map(_c, c["ctors"]))
+    ms = "".join(" (meth %s (%s) %s (%s) %d %d %s)" % (n, " ".join("(%s %s)" % (ty_sx(t), pn) for t, pn in ps), ty_sx(ret),
+                                                      " ".join(s_sx(x) for x in body), 1 if st else 0, 1 if kind_ else 0, vis)
+                 for (n, ps, ret, body, st, kind_, vis) in map(_m, c["meths"]))
     dt = "-" if c.get("dtor") is None else "(dtor%s)" % "".join(" " + s_sx(x) for x in c["dtor"])
-    return "(class %s %s (fields%s) (ctors%s) (meths%s) %s)" % (c["name"], c.get("base") or "-", fs, cts, ms, dt)
+    return "(class %s %s (fields%s) (ctors%s) (meths%s) %s %s)" % (c["name"], c.get("base") or "-", fs, cts, ms, dt, c.get("kind", "normal"))
 
 
 def prog_src(fns, classes=None, order=None):
